@@ -416,14 +416,15 @@ PROPS = {
                    "(vf/genmacro.py): parse_digits accepts exactly the digit strings of the base selected by the 0x/0o/0b prefix (underscores ignored) and returns the limbs of the Horner value incl. the carry-push path across 2^64; "
                    "pad_limbs returns Some iff value < 2^bits with exactly ceil(bits/64) limbs of the same value (13 widths 0..192); parse_suffix splits value / U|B / bits exactly per the hex-B ambiguity rule",
         level_note="pad_limbs: proof (ASSUMED there: std's `last() == Some(&0)` and `last().copied().unwrap_or(0)` through N14 wrappers). parse_digits / parse_suffix BOUNDED (not a proof): strings <= 5 characters over a 16-character alphabet (parse_digits), <= 7 (parse_suffix), limb vectors <= 4; alloc::fmt::format and Vec::push are replaced by Kani stubs "
-                   "(the real ones exhaust CBMC), the native replay runs the real ones. NOT decided: the Transformer's token-tree traversal and code generation (proc_macro::TokenStream exists only inside rustc), "
+                   "(the real ones exhaust CBMC), the native replay runs the real ones. The Transformer's token-tree traversal and code generation (proc_macro::TokenStream exists only inside rustc) are outside both verifiers; BOUNDED stand-in (vf/macroexp.py, /verif/macrocheck): the REAL macro, built from /repo, is executed by rustc on 31 literal / nesting shapes (all bases, underscores, widths 0..256, upper-case hex with B digits, the Bits suffix, () [] {} nesting, call arguments, macro_rules $e:expr / $l:literal / $t:tt forwarding, pass-through of plain integers, identifiers, strings, floats) and every expansion is compared at run time with from_str_radix of the same digits; four invalid literals (digit above / equal to the base, value >= 2^bits for U and B) must each fail to compile at their own line. NOT decided: "
                    "literals of several hundred digits, widths up to 4096, error message text",
         technique="deductive contract (Verus, all widths and lengths) on pad_limbs; Kani bounded contract harnesses on verbatim-extracted proc-macro functions (extraction drops everything that touches proc_macro::TokenStream)",
         units=["padlimbs"],
+        macro_grid=True,
         kani=dict(features=None, quick=hs("c19"), thorough=hs("c19"), bounds="strings <= 5 / <= 7 chars, vectors <= 4 limbs, bits in {0,1,2,8,63,64,65,100,127,128,129,191,192}"),
         explanation="harness-level contracts with Horner / u128 oracles",
         trusted=COMMON_TRUST + ["stubs: alloc::fmt::format (error text only), Vec::push without reallocation (capacity 4)"],
-        not_decided=["token traversal / pass-through of non-matching tokens / nesting", "long literals and wide suffixes"],
+        not_decided=["token traversal / pass-through / nesting beyond the 35 executed shapes of the macro grid (bounded)", "long literals and wide suffixes"],
     ),
     "C20": dict(
         level="proof",
